@@ -287,7 +287,9 @@ func (kc *Cache[V]) Expire(out []Entry[V], now time.Time) []Entry[V] {
 	defer kc.mu.Unlock()
 	for _, b := range kc.buckets {
 		if b.minExpiresAt.Before(now) {
+			before := len(out)
 			out = b.expire(out, now)
+			kc.count -= len(out) - before
 		}
 	}
 	return out
